@@ -383,6 +383,7 @@ def C12(tier):
     ]
     stages = [
         hist_stage("strategies", gen=dict(count=(4000, 20000), params={"kinds": "strategy"}), timeout_ms=4000),
+        hist_stage("gridbuilder", gen=dict(count=(1200, 8000), params={"kinds": "gridbuilder"}), timeout_ms=4000),
     ]
     return dict(models=models, stages=stages, nontrivial=lambda o: o.get("n", 0) >= 2, exhaustive=False,
                 rule="random data sets (length 0..300, thorough: to 10^4) over i32/i64/u32 and N64 (quarters, 0.3+0.1k, 1e9+0.001k, 1e16+2k, thirds), "
